@@ -27,6 +27,7 @@ def main(argv=None):
     try:
         if a.replay:
             doc = json.loads(open(a.replay).read())
+            ctx.tier = "replay"  # replay files written now must not overwrite the file being replayed
             mod.replay(ctx, doc["case"])
             if ctx.violations:
                 return 1
